@@ -466,6 +466,8 @@ def one_case(ctx, case):
         if model is not None:
             m = model["runs"][r_idx] if "runs" in model else {"error": model.get("error")}
         one_call(ctx, {**case, "run": r_idx}, kind, st, datas[r_idx], hold, objs, run, r_idx, sess, m, specs)
+        if sess.get("void"):
+            break
     ctx.case({k: case[k] for k in case if k != "dseed"}, nontrivial=sess["nontriv"], sample=sess["sample"])
 
 
@@ -552,10 +554,9 @@ def one_call(ctx, case, kind, st, data_bases, hold, objs, run, r_idx, sess, m, s
     orig_cbg = st.compute_batch_gradients
 
     def cbg(*a, **k):  # the point BEFORE the update of the batch in progress
-        kk = rec.grad_calls
         rec.grad_calls += 1
         rec.log.append(["grad"])
-        if kk in rec.inject_pre:
+        if rec.opt_steps in rec.inject_pre:  # ordinal of the batch in progress = optimizer steps made so far (however often this is called per batch)
             st.stop_training = True
         return orig_cbg(*a, **k)
 
@@ -586,6 +587,15 @@ def one_call(ctx, case, kind, st, data_bases, hold, objs, run, r_idx, sess, m, s
         err = f"{type(e).__name__}: {e}"
     finally:
         del st.compute_batch_gradients
+    # the hook on the instance attribute `compute_batch_gradients` is an assumption about the INTERNAL call structure of fit: when a rewrite
+    # bypasses it (calls through the class, inlines it) the planned pre-update injection never fires -- such a call (and the rest of its
+    # session, whose expected flags depend on it) carries no verdict
+    if rec.grad_calls == 0 and rec.opt_steps > 0:
+        ctx.count("gradient_hook_bypassed")
+        if inj_pre:
+            ctx.count("gradient_hook_bypassed:pre-update injection impossible, no verdict")
+            sess["void"] = True
+            return
     # what the Timer (or anything else) prints is not part of the property: only counted, never compared
     printed_lines = sum(1 for ln in buf.getvalue().splitlines() if ln.strip())
     final = {"stop": bool(st.stop_training), "ver": rec.opt_steps, "sched": rec.sched_steps}
@@ -710,12 +720,21 @@ def one_call(ctx, case, kind, st, data_bases, hold, objs, run, r_idx, sess, m, s
                case, detail={"steps": len(rec.step_hashes), "first_break": next((k // 2 for k in range(0, len(chain), 2) if chain[k] != chain[k + 1]), None)},
                sig=f"{sig}/param-frame", theorem="C12_param_window, C12_stopped_run_is_noop")
     # each batch window is: batch-start handlers, gradient, optimizer step, batch-end handlers -- also when a stop is raised in between
-    ok_pairs = (len(full_log) == len(rec.log) + rec.grad_calls and rec.grad_calls == rec.opt_steps and
-                all(full_log[k + 1][0] == "opt" for k, en in enumerate(full_log[:-1]) if en[0] == "grad") and
-                (not full_log or full_log[-1][0] != "grad"))
-    ctx.oracle("every gradient computation is followed by its optimizer step (a stop raised in between does not skip the update)", ok_pairs,
-               case, detail={"grad": rec.grad_calls, "opt": rec.opt_steps}, sig=f"{sig}/update-completes",
-               theorem="C12_param_window, C12_stop_in_batch")
+    # (how many gradient calls a batch makes is internal: only "a batch whose gradient computation has begun gets its optimizer step before the
+    # next handler runs" is judged, and nothing when the hook is bypassed)
+    if rec.grad_calls:
+        ok_pairs, pending = True, False
+        for en in full_log:
+            if en[0] == "grad":
+                pending = True
+            elif en[0] == "opt":
+                pending = False
+            elif en[0] == "call" and pending:
+                ok_pairs = False
+        ok_pairs = ok_pairs and not pending
+        ctx.oracle("every gradient computation is followed by its optimizer step (a stop raised in between does not skip the update)", ok_pairs,
+                   case, detail={"grad": rec.grad_calls, "opt": rec.opt_steps}, sig=f"{sig}/update-completes",
+                   theorem="C12_param_window, C12_stop_in_batch")
     if not all_active or not cbs:
         run_flag, ok_seen, k_opt, k_grad = stop0, True, 0, 0
         for en in full_log:
@@ -724,7 +743,7 @@ def one_call(ctx, case, kind, st, data_bases, hold, objs, run, r_idx, sess, m, s
                 if any(i == en[1] and ev == en[2] for i, ev in inj_cb):
                     run_flag = True
             elif en[0] == "grad":
-                run_flag = run_flag or k_grad in rec.inject_pre
+                run_flag = run_flag or k_opt in rec.inject_pre
                 k_grad += 1
             elif en[0] == "opt":
                 run_flag = run_flag or k_opt in rec.inject_mid
